@@ -292,7 +292,7 @@ func planScreen(rng *rand.Rand, nops int, w, h int, mix string, rich bool, hasCa
 		case k < 86:
 			add(sop{Op: "LockRegion", X: rng.Intn(cw+1) - 1, Y: rng.Intn(ch+1) - 1, W: 1 + rng.Intn(3), H: 1 + rng.Intn(2), B: rng.Intn(2) == 0})
 		case k < 89:
-			nw, nh := 2+rng.Intn(9), 1+rng.Intn(5)
+			nw, nh := 1+rng.Intn(10), 1+rng.Intn(5)
 			if rng.Intn(3) == 0 {
 				nw, nh = cw, ch
 			}
@@ -305,7 +305,9 @@ func planScreen(rng *rand.Rand, nops int, w, h int, mix string, rich bool, hasCa
 				add(setc())
 				continue
 			}
-			switch rng.Intn(15) {
+			switch rng.Intn(16) {
+			case 15:
+				add(sop{Op: "Resume"}) // not suspended: nothing may happen
 			case 14:
 				// a cursor colour is set and shown, then only the shape changes: the terminal still holds the colour
 				add(sop{Op: "ShowCursor", X: rng.Intn(cw), Y: rng.Intn(ch)})
@@ -337,12 +339,15 @@ func planScreen(rng *rand.Rand, nops int, w, h int, mix string, rich bool, hasCa
 				add(sop{Op: "Suspend"})
 				running = false
 			default:
-				add(sop{Op: "SetSize", W: 2 + rng.Intn(9), H: 1 + rng.Intn(5)})
+				add(sop{Op: "SetSize", W: 1 + rng.Intn(10), H: 1 + rng.Intn(5)})
 			}
 		}
 	}
 	if !running {
-		// already suspended: the history ends in Suspend (Show while suspended never returns, see C06)
+		// already suspended: the history ends there, or the application exits from the suspended state
+		if mix == "modes" && rng.Intn(2) == 0 {
+			add(sop{Op: "Fini"})
+		}
 	} else if rng.Intn(3) == 0 {
 		add(sop{Op: "Suspend"})
 	} else {
@@ -895,7 +900,7 @@ func screenMain(args []string) error {
 		base := *terminfo.VerifEntry(name)
 		for i := 0; i < *n+len(planned); i++ {
 			cnt++
-			w, h := 2+rng.Intn(9), 1+rng.Intn(5)
+			w, h := 1+rng.Intn(10), 1+rng.Intn(5)
 			if *big > 0 && cnt%*big == 0 {
 				w, h = []int{80, 132, 100}[rng.Intn(3)], []int{24, 50, 10}[rng.Intn(3)]
 			}
